@@ -70,6 +70,8 @@ def run(chk):
     rule_layout_total(chk)
     rule_include_depth(chk)
     rule_defined_eval(chk)
+    import c18
+    c18.rule_inline_constants(chk, prefix="C08.inline")     # the HLSL exporter asserts that the inline block is 8 bytes per binding: a mismatch aborts compile()
     if not rule_enum_kinds_eval(chk):
         rule_admitted_kinds(chk)
     rule_elab_total(chk)
